@@ -13,7 +13,18 @@ from .probe import Probe, Livelock, RunawayRun
 
 
 class UserErr(Exception):
-    """exception type owned by the harness programs"""
+    """exception type owned by the harness programs.  Instances of one class compare *equal*
+    (value equality, as user-defined exceptions often have) although they are distinct objects:
+    the framework must tell failures apart by identity, the oracles do"""
+
+    def __eq__(self, other):
+        return type(other) is type(self)
+
+    def __ne__(self, other):
+        return not self.__eq__(other)
+
+    def __hash__(self):
+        return hash(type(self))
 
 
 class UserErrA(UserErr):
